@@ -1186,3 +1186,506 @@ class MarkupDeclarationOpenState:
                     and t["publicId"] is None and t["systemId"] is None and t["correct"] is True)
         # anything else (incl. "[CDATA[" outside foreign content): bogus comment, nothing consumed
         return method_name(self.state) == "bogusCommentState" and rest == v and token_untouched(old, self)
+
+
+# ---- DOCTYPE states (13.2.5.53-68) --------------------------------------------------------------------------------
+# html5lib keeps the DOCTYPE name as typed and lower-cases it when the name state is left (the standard lower-cases
+# each letter as it is appended; the emitted token is the same).  Where the standard says "reconsume in the bogus
+# DOCTYPE state" some states here consume the character instead: it is not '>' there, and the bogus DOCTYPE state
+# ignores everything else.  "force-quirks on" is `correct` False.
+# (the abstract stream does not promise that its characters are free of CR: the code's spaceCharacters contains it)
+WS = SPACE
+DT_FIELDS = ("name", "publicId", "systemId", "correct")
+
+
+def doctype_token(S):
+    return S.dict({"type": DOCTYPE, "name": S.str("dtname"), "publicId": S.one_of(None, lambda: S.str("publicId")),
+                   "systemId": S.one_of(None, lambda: S.str("systemId")), "correct": S.bool("correct")})
+
+
+def dt_same_but(old, tok, field, value):
+    """`tok` is the token under construction of the pre-state, unchanged except that `field` now has `value`"""
+    o = old.self.currentToken
+    if not (same_object(tok, o) and tok["type"] == DOCTYPE):
+        return False
+    for f in DT_FIELDS:
+        if f == field:
+            if tok[f] != value:
+                return False
+        elif tok[f] != o[f]:
+            return False
+    return True
+
+
+def dt_step(old, self, state, rest, field, value):
+    toks = new_tokens(old, self)
+    return (method_name(self.state) == state and len(others(toks)) == 0 and text_of(toks) == ""
+            and view(self.stream) == rest and dt_same_but(old, self.currentToken, field, value))
+
+
+def dt_emitted(old, self, rest, field, value):
+    toks = new_tokens(old, self)
+    o = others(toks)
+    return (method_name(self.state) == "dataState" and text_of(toks) == "" and len(o) == 1
+            and view(self.stream) == rest and dt_same_but(old, o[0], field, value))
+
+
+def dt_tokenizer(S, state):
+    t = tokenizer(S, state, "none")
+    tok = doctype_token(S)
+    # the quoted-identifier states are entered only after the identifier has been set to the empty string
+    if "PublicIdentifier" in state and "Quoted" in state:
+        tok.entries["publicId"] = [S.str("publicId_q"), True]
+    if "SystemIdentifier" in state and "Quoted" in state:
+        tok.entries["systemId"] = [S.str("systemId_q"), True]
+    t.fields["currentToken"] = tok
+    return t
+
+
+def spec_doctype(old, self, v, c):
+    if c == "":
+        return dt_emitted(old, self, "", "correct", False)
+    if c in WS:
+        return dt_step(old, self, "beforeDoctypeNameState", v[1:], "", None)
+    return dt_step(old, self, "beforeDoctypeNameState", v, "", None)                 # reconsumed
+
+
+def spec_before_doctype_name(old, self, v, c):
+    if c == "":
+        return dt_emitted(old, self, "", "correct", False)
+    if c in WS:
+        return dt_step(old, self, "beforeDoctypeNameState", v[1:], "", None)
+    if c == ">":
+        return dt_emitted(old, self, v[1:], "correct", False)
+    # the name starts with this character (lower-cased when the name state is left), U+0000 as U+FFFD
+    return dt_step(old, self, "doctypeNameState", v[1:], "name", nul_or(c))
+
+
+def spec_doctype_name(old, self, v, c):
+    name = old.self.currentToken["name"]
+    if c == "":
+        toks = new_tokens(old, self)
+        o = others(toks)
+        return (method_name(self.state) == "dataState" and len(o) == 1 and same_object(o[0], old.self.currentToken)
+                and o[0]["correct"] is False and o[0]["name"] == ascii_lower(name) and view(self.stream) == "")
+    if c in WS:
+        return dt_step(old, self, "afterDoctypeNameState", v[1:], "name", ascii_lower(name))
+    if c == ">":
+        return dt_emitted(old, self, v[1:], "name", ascii_lower(name))
+    return dt_step(old, self, "doctypeNameState", v[1:], "name", name + nul_or(c))
+
+
+def is_keyword(v, letters):
+    for i in range(6):
+        if v[i:i + 1] not in letters[i]:
+            return False
+    return True
+
+
+PUBLIC_LETTERS = (("p", "P"), ("u", "U"), ("b", "B"), ("l", "L"), ("i", "I"), ("c", "C"))
+SYSTEM_LETTERS = (("s", "S"), ("y", "Y"), ("s", "S"), ("t", "T"), ("e", "E"), ("m", "M"))
+
+
+def spec_after_doctype_name(old, self, v, c):
+    if c == "":
+        return dt_emitted(old, self, "", "correct", False)
+    if c in WS:
+        return dt_step(old, self, "afterDoctypeNameState", v[1:], "", None)
+    if c == ">":
+        return dt_emitted(old, self, v[1:], "", None)
+    if is_keyword(v, PUBLIC_LETTERS):
+        return dt_step(old, self, "afterDoctypePublicKeywordState", v[6:], "", None)
+    if is_keyword(v, SYSTEM_LETTERS):
+        return dt_step(old, self, "afterDoctypeSystemKeywordState", v[6:], "", None)
+    # force-quirks, bogus DOCTYPE; html5lib drops the letters of a partly matched keyword, none of which is '>'
+    rest = view(self.stream)
+    toks = new_tokens(old, self)
+    if not (method_name(self.state) == "bogusDoctypeState" and len(others(toks)) == 0 and text_of(toks) == ""
+            and dt_same_but(old, self.currentToken, "correct", False)):
+        return False
+    return v.endswith(rest) and ">" not in remove_suffix(v, rest) and len(rest) + 6 > len(v)
+
+
+def spec_after_keyword(old, self, v, c, before):
+    if c == "":
+        return dt_emitted(old, self, "", "correct", False)
+    if c in WS:
+        return dt_step(old, self, before, v[1:], "", None)
+    # quotes, '>' and anything else are handed to the "before identifier" state (which does what the standard
+    # prescribes for them in this state)
+    return dt_step(old, self, before, v, "", None)
+
+
+def spec_before_identifier(old, self, v, c, field, dq, sq):
+    if c == "":
+        return dt_emitted(old, self, "", "correct", False)
+    if c in WS:
+        return dt_step(old, self, method_name(old.self.state), v[1:], "", None)
+    if c == '"':
+        return dt_step(old, self, dq, v[1:], field, "")
+    if c == "'":
+        return dt_step(old, self, sq, v[1:], field, "")
+    if c == ">":
+        return dt_emitted(old, self, v[1:], "correct", False)
+    return dt_step(old, self, "bogusDoctypeState", v[1:], "correct", False)
+
+
+def spec_identifier_quoted(old, self, v, c, field, quote, after):
+    cur = old.self.currentToken[field]
+    if c == "":
+        return dt_emitted(old, self, "", "correct", False)
+    if c == quote:
+        return dt_step(old, self, after, v[1:], "", None)
+    if c == ">":
+        return dt_emitted(old, self, v[1:], "correct", False)
+    return dt_step(old, self, method_name(old.self.state), v[1:], field, cur + nul_or(c))
+
+
+def spec_after_public_identifier(old, self, v, c):
+    if c == "":
+        return dt_emitted(old, self, "", "correct", False)
+    if c in WS:
+        return dt_step(old, self, "betweenDoctypePublicAndSystemIdentifiersState", v[1:], "", None)
+    if c == ">":
+        return dt_emitted(old, self, v[1:], "", None)
+    if c == '"':
+        return dt_step(old, self, "doctypeSystemIdentifierDoubleQuotedState", v[1:], "systemId", "")
+    if c == "'":
+        return dt_step(old, self, "doctypeSystemIdentifierSingleQuotedState", v[1:], "systemId", "")
+    return dt_step(old, self, "bogusDoctypeState", v[1:], "correct", False)
+
+
+def spec_between_identifiers(old, self, v, c):
+    if c == "":
+        return dt_emitted(old, self, "", "correct", False)
+    if c in WS:
+        return dt_step(old, self, "betweenDoctypePublicAndSystemIdentifiersState", v[1:], "", None)
+    if c == ">":
+        return dt_emitted(old, self, v[1:], "", None)
+    if c == '"':
+        return dt_step(old, self, "doctypeSystemIdentifierDoubleQuotedState", v[1:], "systemId", "")
+    if c == "'":
+        return dt_step(old, self, "doctypeSystemIdentifierSingleQuotedState", v[1:], "systemId", "")
+    return dt_step(old, self, "bogusDoctypeState", v[1:], "correct", False)
+
+
+def spec_after_system_identifier(old, self, v, c):
+    if c == "":
+        return dt_emitted(old, self, "", "correct", False)
+    if c in WS:
+        return dt_step(old, self, "afterDoctypeSystemIdentifierState", v[1:], "", None)
+    if c == ">":
+        return dt_emitted(old, self, v[1:], "", None)
+    return dt_step(old, self, "bogusDoctypeState", v[1:], "", None)          # no force-quirks here (standard)
+
+
+def spec_bogus_doctype(old, self, v, c):
+    if c == "":
+        return dt_emitted(old, self, "", "", None)
+    if c == ">":
+        return dt_emitted(old, self, v[1:], "", None)
+    return dt_step(old, self, "bogusDoctypeState", v[1:], "", None)
+
+
+@contract(TOK + ".doctypeState")
+class DoctypeState:
+    props = ("C02",)
+    modular = False
+
+    def inputs(S):
+        return dict(self=dt_tokenizer(S, "doctypeState"))
+
+    def call(i):
+        return run_state(i, "doctypeState")
+
+    @ensures("C02")
+    def follows_the_standard(old, self, result):
+        v = view(old.self.stream)
+        if result is not True:
+            return False
+        return spec_doctype(old, self, v, v[:1])
+
+
+@contract(TOK + ".beforeDoctypeNameState")
+class BeforeDoctypeNameState:
+    props = ("C02",)
+    modular = False
+
+    def inputs(S):
+        return dict(self=dt_tokenizer(S, "beforeDoctypeNameState"))
+
+    def call(i):
+        return run_state(i, "beforeDoctypeNameState")
+
+    @ensures("C02")
+    def follows_the_standard(old, self, result):
+        v = view(old.self.stream)
+        if result is not True:
+            return False
+        return spec_before_doctype_name(old, self, v, v[:1])
+
+
+@contract(TOK + ".doctypeNameState")
+class DoctypeNameState:
+    props = ("C02",)
+    modular = False
+
+    def inputs(S):
+        return dict(self=dt_tokenizer(S, "doctypeNameState"))
+
+    def call(i):
+        return run_state(i, "doctypeNameState")
+
+    @ensures("C02")
+    def follows_the_standard(old, self, result):
+        v = view(old.self.stream)
+        if result is not True:
+            return False
+        return spec_doctype_name(old, self, v, v[:1])
+
+
+@contract(TOK + ".afterDoctypeNameState")
+class AfterDoctypeNameState:
+    props = ("C02",)
+    modular = False
+
+    def inputs(S):
+        return dict(self=dt_tokenizer(S, "afterDoctypeNameState"))
+
+    def call(i):
+        return run_state(i, "afterDoctypeNameState")
+
+    @ensures("C02")
+    def follows_the_standard(old, self, result):
+        v = view(old.self.stream)
+        if result is not True:
+            return False
+        return spec_after_doctype_name(old, self, v, v[:1])
+
+
+@contract(TOK + ".afterDoctypePublicKeywordState")
+class AfterDoctypePublicKeywordState:
+    props = ("C02",)
+    modular = False
+
+    def inputs(S):
+        return dict(self=dt_tokenizer(S, "afterDoctypePublicKeywordState"))
+
+    def call(i):
+        return run_state(i, "afterDoctypePublicKeywordState")
+
+    @ensures("C02")
+    def follows_the_standard(old, self, result):
+        v = view(old.self.stream)
+        if result is not True:
+            return False
+        return spec_after_keyword(old, self, v, v[:1], "beforeDoctypePublicIdentifierState")
+
+
+@contract(TOK + ".beforeDoctypePublicIdentifierState")
+class BeforeDoctypePublicIdentifierState:
+    props = ("C02",)
+    modular = False
+
+    def inputs(S):
+        return dict(self=dt_tokenizer(S, "beforeDoctypePublicIdentifierState"))
+
+    def call(i):
+        return run_state(i, "beforeDoctypePublicIdentifierState")
+
+    @ensures("C02")
+    def follows_the_standard(old, self, result):
+        v = view(old.self.stream)
+        if result is not True:
+            return False
+        return spec_before_identifier(old, self, v, v[:1], "publicId", "doctypePublicIdentifierDoubleQuotedState", "doctypePublicIdentifierSingleQuotedState")
+
+
+@contract(TOK + ".doctypePublicIdentifierDoubleQuotedState")
+class DoctypePublicIdentifierDoubleQuotedState:
+    props = ("C02",)
+    modular = False
+
+    def inputs(S):
+        return dict(self=dt_tokenizer(S, "doctypePublicIdentifierDoubleQuotedState"))
+
+    def call(i):
+        return run_state(i, "doctypePublicIdentifierDoubleQuotedState")
+
+    @ensures("C02")
+    def follows_the_standard(old, self, result):
+        v = view(old.self.stream)
+        if result is not True:
+            return False
+        return spec_identifier_quoted(old, self, v, v[:1], "publicId", "\"", "afterDoctypePublicIdentifierState")
+
+
+@contract(TOK + ".doctypePublicIdentifierSingleQuotedState")
+class DoctypePublicIdentifierSingleQuotedState:
+    props = ("C02",)
+    modular = False
+
+    def inputs(S):
+        return dict(self=dt_tokenizer(S, "doctypePublicIdentifierSingleQuotedState"))
+
+    def call(i):
+        return run_state(i, "doctypePublicIdentifierSingleQuotedState")
+
+    @ensures("C02")
+    def follows_the_standard(old, self, result):
+        v = view(old.self.stream)
+        if result is not True:
+            return False
+        return spec_identifier_quoted(old, self, v, v[:1], "publicId", "'", "afterDoctypePublicIdentifierState")
+
+
+@contract(TOK + ".afterDoctypePublicIdentifierState")
+class AfterDoctypePublicIdentifierState:
+    props = ("C02",)
+    modular = False
+
+    def inputs(S):
+        return dict(self=dt_tokenizer(S, "afterDoctypePublicIdentifierState"))
+
+    def call(i):
+        return run_state(i, "afterDoctypePublicIdentifierState")
+
+    @ensures("C02")
+    def follows_the_standard(old, self, result):
+        v = view(old.self.stream)
+        if result is not True:
+            return False
+        return spec_after_public_identifier(old, self, v, v[:1])
+
+
+@contract(TOK + ".betweenDoctypePublicAndSystemIdentifiersState")
+class BetweenDoctypePublicAndSystemIdentifiersState:
+    props = ("C02",)
+    modular = False
+
+    def inputs(S):
+        return dict(self=dt_tokenizer(S, "betweenDoctypePublicAndSystemIdentifiersState"))
+
+    def call(i):
+        return run_state(i, "betweenDoctypePublicAndSystemIdentifiersState")
+
+    @ensures("C02")
+    def follows_the_standard(old, self, result):
+        v = view(old.self.stream)
+        if result is not True:
+            return False
+        return spec_between_identifiers(old, self, v, v[:1])
+
+
+@contract(TOK + ".afterDoctypeSystemKeywordState")
+class AfterDoctypeSystemKeywordState:
+    props = ("C02",)
+    modular = False
+
+    def inputs(S):
+        return dict(self=dt_tokenizer(S, "afterDoctypeSystemKeywordState"))
+
+    def call(i):
+        return run_state(i, "afterDoctypeSystemKeywordState")
+
+    @ensures("C02")
+    def follows_the_standard(old, self, result):
+        v = view(old.self.stream)
+        if result is not True:
+            return False
+        return spec_after_keyword(old, self, v, v[:1], "beforeDoctypeSystemIdentifierState")
+
+
+@contract(TOK + ".beforeDoctypeSystemIdentifierState")
+class BeforeDoctypeSystemIdentifierState:
+    props = ("C02",)
+    modular = False
+
+    def inputs(S):
+        return dict(self=dt_tokenizer(S, "beforeDoctypeSystemIdentifierState"))
+
+    def call(i):
+        return run_state(i, "beforeDoctypeSystemIdentifierState")
+
+    @ensures("C02")
+    def follows_the_standard(old, self, result):
+        v = view(old.self.stream)
+        if result is not True:
+            return False
+        return spec_before_identifier(old, self, v, v[:1], "systemId", "doctypeSystemIdentifierDoubleQuotedState", "doctypeSystemIdentifierSingleQuotedState")
+
+
+@contract(TOK + ".doctypeSystemIdentifierDoubleQuotedState")
+class DoctypeSystemIdentifierDoubleQuotedState:
+    props = ("C02",)
+    modular = False
+
+    def inputs(S):
+        return dict(self=dt_tokenizer(S, "doctypeSystemIdentifierDoubleQuotedState"))
+
+    def call(i):
+        return run_state(i, "doctypeSystemIdentifierDoubleQuotedState")
+
+    @ensures("C02")
+    def follows_the_standard(old, self, result):
+        v = view(old.self.stream)
+        if result is not True:
+            return False
+        return spec_identifier_quoted(old, self, v, v[:1], "systemId", "\"", "afterDoctypeSystemIdentifierState")
+
+
+@contract(TOK + ".doctypeSystemIdentifierSingleQuotedState")
+class DoctypeSystemIdentifierSingleQuotedState:
+    props = ("C02",)
+    modular = False
+
+    def inputs(S):
+        return dict(self=dt_tokenizer(S, "doctypeSystemIdentifierSingleQuotedState"))
+
+    def call(i):
+        return run_state(i, "doctypeSystemIdentifierSingleQuotedState")
+
+    @ensures("C02")
+    def follows_the_standard(old, self, result):
+        v = view(old.self.stream)
+        if result is not True:
+            return False
+        return spec_identifier_quoted(old, self, v, v[:1], "systemId", "'", "afterDoctypeSystemIdentifierState")
+
+
+@contract(TOK + ".afterDoctypeSystemIdentifierState")
+class AfterDoctypeSystemIdentifierState:
+    props = ("C02",)
+    modular = False
+
+    def inputs(S):
+        return dict(self=dt_tokenizer(S, "afterDoctypeSystemIdentifierState"))
+
+    def call(i):
+        return run_state(i, "afterDoctypeSystemIdentifierState")
+
+    @ensures("C02")
+    def follows_the_standard(old, self, result):
+        v = view(old.self.stream)
+        if result is not True:
+            return False
+        return spec_after_system_identifier(old, self, v, v[:1])
+
+
+@contract(TOK + ".bogusDoctypeState")
+class BogusDoctypeState:
+    props = ("C02",)
+    modular = False
+
+    def inputs(S):
+        return dict(self=dt_tokenizer(S, "bogusDoctypeState"))
+
+    def call(i):
+        return run_state(i, "bogusDoctypeState")
+
+    @ensures("C02")
+    def follows_the_standard(old, self, result):
+        v = view(old.self.stream)
+        if result is not True:
+            return False
+        return spec_bogus_doctype(old, self, v, v[:1])
